@@ -2765,6 +2765,18 @@ impl<'de, 'e> de::Deserializer<'de> for YamlDeserializer<'de, 'e> {
 
         let mut tagged_enum = None;
 
+        // A tagged payload (`!Variant payload`) is buffered and replayed below. When the node is
+        // itself being replayed for an alias, the replay must keep reporting the alias token as
+        // the use site, as the live source does.
+        let node_location = self.ev.peek()?.map(|ev| ev.location());
+        let use_site = self.ev.reference_location();
+        let replay_reference = (Some(use_site) != node_location && use_site != Location::UNKNOWN)
+            .then_some(use_site);
+        let replay_source = |buf: Vec<Ev<'de>>| match replay_reference {
+            Some(reference) => ReplayEvents::with_reference(buf, reference),
+            None => ReplayEvents::new(buf),
+        };
+
         let mode = match self.ev.peek()? {
             Some(Ev::Scalar {
                 tag,
@@ -2894,7 +2906,7 @@ impl<'de, 'e> de::Deserializer<'de> for YamlDeserializer<'de, 'e> {
                             None => return Err(Error::eof().with_location(self.ev.last_location())),
                         }
                     }
-                    let replay = Box::new(ReplayEvents::new(replay_events));
+                    let replay = Box::new(replay_source(replay_events));
                     return visitor.visit_enum(TaggedEA {
                         replay,
                         cfg: self.cfg,
@@ -3203,7 +3215,7 @@ impl<'de, 'e> de::Deserializer<'de> for YamlDeserializer<'de, 'e> {
                 variant_location,
             },
             Mode::TaggedNewtype(variant, variant_location, replay_buf) => {
-                let replay = Box::new(ReplayEvents::new(replay_buf));
+                let replay = Box::new(replay_source(replay_buf));
                 // We need to use a replay source for the payload
                 return visitor.visit_enum(TaggedEA {
                     replay,
